@@ -60,7 +60,8 @@ type Case struct {
 	Init      []int   `json:"init"`                     // per name: client index that owns it before the run, -1 none
 	Tasks     []TaskC `json:"tasks"`
 	Picks     []int   `json:"picks"`
-	FailAt    int     `json:"fail_at"`               // -1 none; else the n-th SetNX of a name-index key returns a storage error
+	FailAt    int     `json:"fail_at"`               // -1 none; else the n-th faultable operation returns a storage error
+	FailOn    string  `json:"fail_on,omitempty"`     // "" / "claim": SetNX of a name-index key; "record-delete": Delete of a mapping record
 	Lost      bool    `json:"lost_answer,omitempty"` // the faulted SetNX is applied but reports an error (else: not applied)
 }
 
@@ -124,7 +125,11 @@ func (f *fastCache) Delete(key string) error {
 	if f.isFast(key) {
 		return f.GateCache.Storage.Delete(key)
 	}
-	return f.GateCache.Delete(key)
+	err := f.GateCache.Delete(key)
+	if f.lost && errors.Is(err, vkit.ErrGateFault) {
+		f.GateCache.Storage.Delete(key)
+	}
+	return err
 }
 
 // ---------------------------------------------------------------------------
@@ -489,6 +494,10 @@ func runCase(c Case, choose func(int, []string) int) result {
 	// reports failed reads as not-found and swallows failed cache writes (C14 findings).
 	w.main.lost = c.Lost
 	w.g.FailFilter = func(s vkit.Step, _ bool) bool {
+		if c.FailOn == "record-delete" {
+			// DeleteMapping has removed the index entry and now fails to remove the record
+			return strings.HasSuffix(s.Op, ".Delete") && strings.HasPrefix(s.Key, repos.KeyPrefixHTTPDomainMapping)
+		}
 		return strings.HasSuffix(s.Op, ".SetNX") && strings.HasPrefix(s.Key, repos.KeyPrefixHTTPDomainIndex)
 	}
 	w.g.Activate()
@@ -779,6 +788,13 @@ func rootCause(initIdx map[string]string, log []vkit.Step, symptom string, lost 
 				claimAt[s.Key] = i
 				claimBy[s.Key] = s.Task
 			}
+		case isIdx && strings.HasSuffix(s.Op, ".Set"):
+			// the index is only ever claimed with SetNX; a plain Set overwrites whoever holds the name
+			if cur := idx[s.Key]; cur != "" && claimBy[s.Key] != s.Task {
+				return "index-overwritten-by-plain-set"
+			}
+			idx[s.Key] = "?set:" + s.Task
+			claimBy[s.Key] = s.Task
 		case isRec && strings.HasSuffix(s.Op, ".Set"):
 			if k, ok := pending[s.Task]; ok && idx[k] == "?"+s.Task {
 				idx[k] = strings.TrimPrefix(s.Key, repos.KeyPrefixHTTPDomainMapping)
@@ -868,7 +884,11 @@ func report(t vkit.TB, c Case, r result, class string) {
 		vkit.Class("feat:ownership-ops-of-two-tasks-parked-together")
 	}
 	if r.faulted {
-		vkit.Class("feat:name-claim-storage-error")
+		if c.FailOn == "record-delete" {
+			vkit.Class("feat:record-delete-storage-error")
+		} else {
+			vkit.Class("feat:name-claim-storage-error")
+		}
 		if c.Lost {
 			vkit.Class("feat:name-claim-applied-but-answer-lost")
 		}
@@ -937,6 +957,9 @@ func TestRandomSchedules(t *testing.T) {
 		if rapid.IntRange(0, 3).Draw(t, "fault") == 0 {
 			c.FailAt = rapid.IntRange(0, 2).Draw(t, "failAt")
 			c.Lost = rapid.Bool().Draw(t, "lostAnswer")
+			if rapid.IntRange(0, 2).Draw(t, "failOn") == 0 {
+				c.FailOn = "record-delete"
+			}
 			// a failed claim that leaves an index entry behind, combined with the open id-counter
 			// finding (two creates minting one id), resolves that entry to the other create's
 			// record: keep the two root causes apart
@@ -957,8 +980,9 @@ type dfsProg struct {
 	gatedIDs bool
 	thorough bool
 	schedCap int
-	fault    int  // n > 0: the n-th index SetNX returns a storage error
-	lost     bool // ... after having been applied
+	fault    int    // n > 0: the n-th faultable operation returns a storage error
+	lost     bool   // ... after having been applied
+	failOn   string // "" = claim (index SetNX), "record-delete"
 }
 
 func cr(name, client int) Op    { return Op{Do: "create", Name: name, Client: client} }
@@ -987,6 +1011,10 @@ var dfsProgs = []dfsProg{
 	{name: "create(A) fresh [claim fails, answer lost]||create(B)", init: []int{-1, -1}, tasks: [][]Op{{cr(0, 0)}, {cr(0, 1)}}, fault: 1, lost: true},
 	{name: "create(A) fresh [claim fails]||create(B);delete(own)", init: []int{-1, -1}, tasks: [][]Op{{cr(0, 0)}, {cr(0, 1), del("own", 1)}}, fault: 1},
 	{name: "delete(owner);create(B) [claim fails]||create(C)", init: []int{0, -1}, tasks: [][]Op{{del("init0", 0), cr(0, 1)}, {cr(0, 2)}}, fault: 1},
+	{name: "delete(owner) [record delete fails]||create(B)", init: []int{0, -1}, tasks: [][]Op{{del("init0", 0)}, {cr(0, 1)}}, fault: 1, failOn: "record-delete"},
+	{name: "delete(owner) [record delete fails, answer lost]||create(B)", init: []int{0, -1}, tasks: [][]Op{{del("init0", 0)}, {cr(0, 1)}}, fault: 1, lost: true, failOn: "record-delete"},
+	{name: "delete(owner) [record delete fails];delete(owner)||create(B);lookup", init: []int{0, -1}, tasks: [][]Op{{del("init0", 0), del("init0", 0)}, {cr(0, 1), lk(0)}}, fault: 1, failOn: "record-delete"},
+	{name: "delete(owner) [record delete fails]||create(B);delete(own)", init: []int{0, -1}, tasks: [][]Op{{del("init0", 0)}, {cr(0, 1), del("own", 1)}}, fault: 1, failOn: "record-delete"},
 	{name: "delete(owner)||delete(owner)||create(B)", init: []int{0, -1}, tasks: [][]Op{{del("init0", 0)}, {del("init0", 0)}, {cr(0, 1)}}, thorough: true},
 }
 
@@ -1010,7 +1038,7 @@ func TestExhaustive(t *testing.T) {
 				if prog.thorough && !fastLists {
 					continue // tree too large with list operations scheduled
 				}
-				c := Case{Shared: shared, FastLists: fastLists, AtomicIDs: !prog.gatedIDs, Init: prog.init, FailAt: prog.fault - 1, Lost: prog.lost}
+				c := Case{Shared: shared, FastLists: fastLists, AtomicIDs: !prog.gatedIDs, Init: prog.init, FailAt: prog.fault - 1, Lost: prog.lost, FailOn: prog.failOn}
 				for i, ops := range prog.tasks {
 					c.Tasks = append(c.Tasks, TaskC{Node: i % 2, Ops: ops})
 				}
@@ -1127,7 +1155,7 @@ func TestReplay(t *testing.T) {
 	if err != nil {
 		t.Fatal(err)
 	}
-	if strings.Contains(key, "/identity/") {
+	if strings.Contains(key, "/identity/") || strings.Contains(key, "/claim/") {
 		replayIdentity(t, path)
 		return
 	}
